@@ -1,0 +1,13 @@
+//go:build verif
+// +build verif
+
+package gemmill
+
+import "github.com/dappledger/AnnChain/gemmill/consensus/raft"
+
+// VerifRaftConsensus returns the raft consensus state assembled by assembleStateMachine when the node is configured
+// with consensus = "raft" (nil otherwise).  Build tag "verif" only.
+func (ang *Angine) VerifRaftConsensus() *raft.ConsensusState {
+	cs, _ := ang.consensus.(*raft.ConsensusState)
+	return cs
+}
